@@ -1,7 +1,29 @@
 (* C17 - allocation failure is reported as YAEP_NO_MEMORY (statements; the unwinding protocol model is in Faults.v) *)
-From YV Require Import Prelude Generated GeneratedChecks.
+From YV Require Import Prelude Generated GeneratedChecks Faults.
 Local Open Scope Z_scope.
 
 Theorem C17_no_memory_code : YAEP_NO_MEMORY = 1.
 Proof. reflexivity. Qed.
 Print Assumptions C17_no_memory_code.
+
+Local Close Scope Z_scope.
+(* The unwinding protocol of yaep_parse as it stands in the source (regenerated):
+   whichever call after the installation of the handler raises - a failing
+   memory request or a reported error - the handler releases exactly the working
+   storage that had been acquired: nothing that was not acquired (no invalid
+   memory is touched), nothing twice, and nothing stays acquired. *)
+Theorem C17_parse_unwinding : forall raising_point : option nat,
+  clean (snd (exec parse_prologue parse_handler parse_body parse_flags_volatile raising_point)) = true.
+Proof. exact (protocol_ok_all _ _ _ _ parse_protocol_ok). Qed.
+Print Assumptions C17_parse_unwinding.
+
+(* the flags the handler reads are volatile, and nothing that allocates runs before the handler is installed *)
+Theorem C17_parse_handler_preconditions : parse_flags_volatile = true /\ parse_prologue_allocating_calls = nil.
+Proof. split; [exact parse_flags_are_volatile | exact parse_prologue_does_not_allocate]. Qed.
+Print Assumptions C17_parse_handler_preconditions.
+
+(* the general statement: a protocol that passes the finite check is clean for every raising point *)
+Theorem C17_protocol_check_is_exhaustive : forall pre hnd body vol, protocol_ok pre hnd body vol = true ->
+  forall fa, clean (snd (exec pre hnd body vol fa)) = true.
+Proof. exact protocol_ok_all. Qed.
+Print Assumptions C17_protocol_check_is_exhaustive.
